@@ -116,6 +116,11 @@ func runProp[C any](t *testing.T, rec *evid.Recorder, kind string, checks int, g
 				if rec.Known(f) {
 					return
 				}
+				if f.Sig == "harness-stall" {
+					// the machine (scheduler, or the kernel's TCP stack under connection churn) did not run the harness:
+					// nothing can be said about the proxy
+					inconclusive(rec, "%s", f.Msg)
+				}
 				rec.Remember(c, f)
 				rt.Fatalf("%v", f)
 			}
